@@ -11,6 +11,7 @@ import multiprocessing as mp
 import re
 
 from .. import tlc
+from .. import gather
 
 DEF_TEXT = ("(Definition/Aaa, (Red, Blue, (Square, Triangle))), (Definition/Bbb/#, (Age/#, Green)), "
             "(Definition/Ccc/#, (Distance/#, Circle)), (Definition/Ddd, (Action)), "
@@ -66,6 +67,7 @@ def _init(_):
     from hed.models.definition_dict import DefinitionDict
     _G["schema"] = load_schema_version("8.3.0")
     _G["dd"] = DefinitionDict(DEF_TEXT, _G["schema"])
+    gather._G["schema"] = _G["schema"]
 
 
 def render(skel, uses, forms):
@@ -370,6 +372,32 @@ def run(ctx):
         res_v = pool.map(run_variant, tables["variants"], chunksize=16)
         merges = sorted(tables["merges"], key=lambda r: json.dumps(r, sort_keys=True))
         res_m = pool.map(run_merge, merges, chunksize=16)
+    # Gather.tla: the state machine that recovers definitions from their expansions (DefExpandGatherer)
+    ctx.tlc("MC_Gather", "MC_Gather.cfg" if not quick else ctx.cfg("MC_Gather.cfg", ("Names <- NamesDef", "Names <- Names1")),
+            workers=8, label="design: gatherer machine, Sound / Complete / Deterministic")
+    for vc, inv in (("MC_Gather_vac1.cfg", "CompleteTooStrong"), ("MC_Gather_vac2.cfg", "NeverErrors")):
+        rv = ctx.tlc("MC_Gather", vc, workers=2, expect_ok=False, label="vacuity guard: %s must be violated" % inv)
+        if not rv.violated:
+            raise tlc.TLCFailure("Gather.tla: %s should be violated (vacuous Sound/Complete)" % inv)
+    gjobs = []
+    gconfs = [("Names1", 2, "ValsDef", 3, None), ("NamesDef", 2, "ValsDef", 3, 8)] if quick else \
+             [("Names1", 2, "ValsDef", 4, None), ("NamesDef", 2, "ValsDef", 3, None), ("Names1", 3, "ValsDef", 3, None),
+              ("Names1", 2, "Vals3", 3, None)]
+    for names, k, vals, maxlen, take in gconfs:
+        gcfg = ctx.cfg("MC_Gather_gen.cfg", ("Names <- Names1", "Names <- " + names), ("K = 2", "K = %d" % k),
+                       ("Vals <- ValsDef", "Vals <- " + vals), ("MaxLen = 3", "MaxLen = %d" % maxlen))
+        rg = ctx.tlc("MC_Gather", gcfg, workers=1, label="gatherer histories %s K=%d %s len<=%d" % (names, k, vals, maxlen),
+                     timeout=1800)
+        gjobs += gather.jobs_from(rg.json_lines, k, ["Aaa", "Bbb"] if names == "NamesDef" else ["Aaa"], maxlen, ctx.seed, take)
+    with mp.get_context("fork").Pool(14, initializer=_init, initargs=(None,)) as pool:
+        res_g = pool.map(gather.run_history, gjobs, chunksize=16)
+    for job, probs in zip(gjobs, res_g):
+        ctx.case("gather:" + json.dumps([job["k"], job["hist"]], sort_keys=True),
+                 nontrivial=any(st["known"][n] is not None or st["errs"][n] for st in job["states"] for n in job["names"]))
+        ctx.traces += 1
+        for kind, text in probs:
+            ctx.violation(kind, text, {"mode": "gather", "job": job})
+    ctx.note("gatherer_histories_replayed", len(gjobs))
     for c, probs in zip(cases, res):
         opsk = [s["op"] for s in c["ops"]]
         ctx.case(json.dumps([c["init"], opsk, c["skel"], c["uses"][0][0]]),
@@ -417,6 +445,8 @@ def replay(obj):
         p = run_variant(obj["rec"])
     elif obj["mode"] == "merge":
         p = run_merge(obj["rec"])
+    elif obj["mode"] == "gather":
+        p = gather.run_history(obj["job"])
     else:
         return True, "df replay: rerun the check"
     return (not p), "; ".join(t for _, t in p) or "agrees with the specification"
